@@ -679,7 +679,7 @@ class Executor:
         for level, name, e in mon_list:
             o = e.get("output")
             mon_before.append(len(o._it) if o is not None else 0)
-            mon_before_obj.append(o)
+            mon_before_obj.append((o, (list(o._it), list(o._time), list(o._value)) if o is not None else None))
             try:
                 mon_before_last.append((int(o._it[-1]), float(o._time[-1]), float(o._value[-1]))
                                        if o is not None and len(o._it) else None)
@@ -751,13 +751,19 @@ class Executor:
             elif fingerprint(d) != fp:
                 r.mon_foreign.append(label)
         r.mons = []
-        for (level, name, e), nb, o_old, last_old in zip(mon_list, mon_before, mon_before_obj, mon_before_last):
+        for (level, name, e), nb, (o_old, lists_old), last_old in zip(mon_list, mon_before, mon_before_obj, mon_before_last):
             o = e.get("output")
-            if o is not o_old:
-                nb = 0  # the call started a new output object (solve() does for call-level monitors)
-                last_old = None
-            elif r.kind == "solve" and level == "call" and o is not None and len(o._it) < nb:
-                nb = 0  # ... or emptied the old one
+            kept = False
+            if o is not None and o is o_old and lists_old is not None:
+                try:
+                    kept = (list(o._it[:nb]) == lists_old[0] and list(o._time[:nb]) == lists_old[1] and
+                            [repr(x) for x in o._value[:nb]] == [repr(x) for x in lists_old[2]])
+                except Exception:  # noqa
+                    kept = False
+            if (r.kind == "solve" and level == "call") or not kept:
+                # solve() starts the records of call-level monitors afresh; so does any call
+                # that replaced or emptied the output object instead of appending to it
+                nb = 0
                 last_old = None
             ent = {"level": level, "name": name, "type": e.get("type", name),
                    "frequency": e.get("frequency", DEFAULT_FREQ), "data": e.get("data"),
